@@ -5,7 +5,6 @@ use std::io::ErrorKind;
 use std::pin::Pin;
 use std::sync::Arc;
 use std::task::{Context, Poll};
-use tls_parser::{parse_tls_plaintext, TlsMessage};
 use tokio::io::{AsyncRead, AsyncReadExt, AsyncWrite, ReadBuf};
 use tokio::net::TcpStream;
 use tokio_rustls::server::TlsStream;
@@ -72,35 +71,46 @@ impl TlsListener {
     }
 
     fn extract_client_random(data: &[u8]) -> ClientRandomExtraction {
-        // Parse TLS plaintext record
-        match parse_tls_plaintext(data) {
-            Ok((_, plaintext)) => {
-                // Look for handshake messages
-                for message in &plaintext.msg {
-                    if let TlsMessage::Handshake(handshake) = message {
-                        // Check if this is a ClientHello handshake
-                        if matches!(handshake, tls_parser::TlsMessageHandshake::ClientHello(..)) {
-                            // Extract the ClientHello data
-                            if let tls_parser::TlsMessageHandshake::ClientHello(client_hello) =
-                                handshake
-                            {
-                                if client_hello.random.len() >= 32 {
-                                    let client_random = client_hello.random[..32].to_vec();
+        // The ClientHello is the first handshake message of the connection. It may be spread
+        // over several TLS records (some clients do that on purpose), so its random is taken
+        // from the handshake byte stream, whatever the record boundaries:
+        // message type (1), length (3), legacy version (2), random (32)
+        const HANDSHAKE_RECORD: u8 = 22;
+        const CLIENT_HELLO: u8 = 1;
+        const RECORD_HEADER_LEN: usize = 5;
+        const MAX_FRAGMENT_LEN: usize = (1 << 14) + 256;
+        const RANDOM_OFFSET: usize = 1 + 3 + 2;
+        const NEEDED: usize = RANDOM_OFFSET + 32;
 
-                                    return ClientRandomExtraction::Found(client_random);
-                                }
-                            }
-                        }
-                    }
-                }
-                ClientRandomExtraction::NotFound
+        let mut message = [0u8; NEEDED];
+        let mut have = 0;
+        let mut pos = 0;
+        while have < NEEDED {
+            let header = match data.get(pos..pos + RECORD_HEADER_LEN) {
+                Some(x) => x,
+                None => return ClientRandomExtraction::NeedMoreData,
+            };
+            let fragment_len = u16::from_be_bytes([header[3], header[4]]) as usize;
+            if header[0] != HANDSHAKE_RECORD || fragment_len == 0 || fragment_len > MAX_FRAGMENT_LEN
+            {
+                return ClientRandomExtraction::NotFound;
             }
-            Err(tls_parser::Err::Incomplete(_)) => ClientRandomExtraction::NeedMoreData,
-            Err(e) => {
-                log::debug!("Failed to parse TLS plaintext: {:?}", e);
-                ClientRandomExtraction::NotFound
+
+            let start = pos + RECORD_HEADER_LEN;
+            let fragment = &data[start..data.len().min(start + fragment_len)];
+            let take = fragment.len().min(NEEDED - have);
+            message[have..have + take].copy_from_slice(&fragment[..take]);
+            have += take;
+            if have > 0 && message[0] != CLIENT_HELLO {
+                return ClientRandomExtraction::NotFound;
             }
+            if have < NEEDED && fragment.len() < fragment_len {
+                return ClientRandomExtraction::NeedMoreData;
+            }
+            pos = start + fragment_len;
         }
+
+        ClientRandomExtraction::Found(message[RANDOM_OFFSET..].to_vec())
     }
 }
 
